@@ -21,9 +21,9 @@ def make_script(rng):
         elif c < 5:
             ops.append(("ctrl", i, W.cmd("CMD POWEROFF")))
         elif c == 5:
-            ops.append(("ctrl", i, W.cmd("CMD RXTUNE %d" % rng.choice(W.FREQS))))
+            ops.append(("ctrl", i, W.cmd("CMD RXTUNE %d" % W.rand_int_arg(rng, "RXTUNE"))))
         elif c == 6:
-            ops.append(("ctrl", i, W.cmd("CMD TXTUNE %d" % rng.choice(W.FREQS))))
+            ops.append(("ctrl", i, W.cmd("CMD TXTUNE %d" % W.rand_int_arg(rng, "TXTUNE"))))
         elif c == 7:
             ops.append(("ctrl", i, W.cmd("CMD SETFH %d 0 %d %d" % (rng.choice([0, 5]), rng.choice(W.FREQS), rng.choice(W.FREQS)))))
         else:
